@@ -79,22 +79,19 @@ Definition assemble {X} (enc : X -> nat) (xs : list X) (syms : list nat)
                             end) xs)
         (enc x0) (map enc fin).
 
-(* every state_map[...] lookup of union/concatenate succeeds: non-empty rows are
-   keyed by states, targets, initial and final states are states *)
+(* every state_map[...] lookup of union/concatenate succeeds.  _load_new_transition_dict
+   skips rows keyed by a name that is not a state; for the other rows every target
+   must be a state, and so must the initial and the final states *)
 Definition lookups_ok (A : nfa) : bool :=
-  forallb (fun r => match snd r with
-                    | [] => true
-                    | _ => memb (fst r) (n_states A) && forallb (fun p => subsetb (snd p) (n_states A)) (snd r)
-                    end) (n_trans A)
+  forallb (fun r => negb (memb (fst r) (n_states A))
+                    || forallb (fun p => subsetb (snd p) (n_states A)) (snd r)) (n_trans A)
   && memb (n_init A) (n_states A) && subsetb (n_finals A) (n_states A).
-
-(* hypothesis of the theorems next to valid_nfa: every row belongs to a state *)
-Definition rows_keyed (A : nfa) : bool := forallb (fun r => memb (fst r) (n_states A)) (n_trans A).
 
 Definition usyms (A B : nfa) : list nat := set_of (n_syms A ++ n_syms B).
 Definition arow (A : nfa) (q : nat) : row := tr_row (n_trans A) q.
 
-(* ---- union: new state 0, then A's states 1.., then B's states ---- *)
+(* ---- union: new state 0, then A's states 1.., then B's states; rows are built for
+   states only, so a transition row keyed by a non-state is skipped ---- *)
 Definition union_xs (A B : nfa) : list (nat * nat) :=
   (0, 0) :: map (pair 1) (n_states A) ++ map (pair 2) (n_states B).
 Definition union_rowof (A B : nfa) (x : nat * nat) : option (xrow (nat * nat)) :=
@@ -153,18 +150,18 @@ Definition option_pre (A : nfa) : nfa :=
 Definition nfa_option (A : nfa) : res nfa := check_nfa (option_pre A).
 
 Definition okeys (A : nfa) : list (option nat) := None :: map Some (n_syms A).
-(* row of x in the reversed automaton: key a iff some state has an a-edge into x *)
+(* row of x in the reversed automaton: key a iff some state has an a-edge into x;
+   rows keyed by a name that is not a state are skipped, as in the code *)
 Definition rev_sources (A : nfa) (x : nat) (a : option nat) : list nat :=
-  filter (fun p => memb x (n_targets A p a)) (map fst (n_trans A)).
+  filter (fun p => memb x (n_targets A p a))
+         (filter (fun p => memb p (n_states A)) (map fst (n_trans A))).
 Definition reverse_rowof (A : nfa) (n x : nat) : option (xrow nat) :=
   Some (if Nat.eqb x n then [(None, n_finals A)]
         else tab (filter (fun a => nonempty (rev_sources A x a)) (okeys A)) (rev_sources A x)).
 Definition reverse_pre (A : nfa) : nfa :=
   let n := fresh (n_states A) in
   assemble idn (n_states A ++ [n]) (n_syms A) (reverse_rowof A n) n [n_init A].
-(* an end state that is not a state (a row keyed by a non-state) fails validation *)
-Definition nfa_reverse (A : nfa) : res nfa :=
-  if rows_keyed A then check_nfa (reverse_pre A) else Err (Invalid 1).
+Definition nfa_reverse (A : nfa) : res nfa := check_nfa (reverse_pre A).
 
 (* ---- intersection: breadth-first product from the pair of initial states ---- *)
 Definition inter_row (A B : nfa) (syms : list nat) (x : nat * nat) : xrow (nat * nat) :=
@@ -329,7 +326,7 @@ Fixpoint nfa_eval (e : nexp) : res nfa :=
 
 Fixpoint nexp_leaves_ok (e : nexp) : bool :=
   match e with
-  | NLeaf A => valid_nfa A && rows_keyed A
+  | NLeaf A => valid_nfa A
   | NStar e | NOption e | NReverse e => nexp_leaves_ok e
   | NUnion e f | NConcat e f | NInter e f | NShuffle e f | NRQuot e f | NLQuot e f =>
     nexp_leaves_ok e && nexp_leaves_ok f
